@@ -359,7 +359,7 @@ def _shard(ctx, shard, nshards):
 
     def factory():
         @seed(runner.hseed(ctx, 7))
-        @runner.hsettings(ctx.scale(800, 4000))
+        @runner.hsettings(ctx.scale(800, 15000))
         @given(tapes(2000))
         def test(data):
             case = build_case(data)
